@@ -9,6 +9,7 @@ import numpy as np
 from hypothesis import strategies as st
 
 from tensorly.decomposition import tucker, partial_tucker, tensor_train, tensor_train_matrix, tensor_ring
+from tensorly.decomposition import Tucker, TensorTrain, TensorTrainMatrix, TensorRing
 
 from vlib import gen, ref
 from vlib.engine import SubCheck, check, Fail
@@ -20,7 +21,10 @@ RULE = ("Hypothesis: tensors of order 2-5 with sides 1-4 (<= 400 entries; TT-mat
         "exactly low CP rank (rank-deficient unfoldings), exactly low TT rank, exactly low TR rank; integer-valued data is "
         "handed over as float64, int64 or int32; rank vectors from 1 to "
         "beyond the mode sizes given as int or list; svd in {truncated_svd, symeig_svd}; HOOI with n_iter_max in "
-        "{1,2,3,10,100} and tol in {default,0}; partial_tucker on every non-empty ascending mode subset; every TR start mode. "
+        "{1,2,3,10,100} and tol in {default,0}; partial_tucker on every non-empty ascending mode subset; every TR start mode; "
+        "each tucker/TT/TT-matrix/TR case through the function or the estimator class (Tucker, TensorTrain, TensorTrainMatrix, "
+        "TensorRing.fit_transform); history sub-checks decompose a small tensor first and then the case tensor with the same "
+        "rank list object / estimator and judge the second result against the original request. "
         "Oracle: sigma of mode unfoldings (Tucker) / sequential unfoldings (TT, TT-matrix after the interleaving "
         "permutation) / the start-mode unfolding (TR) from numpy.linalg.svd; "
         "max_n tail_n - slack <= ||X - Xhat||_F <= sqrt(sum_n tail_n^2) + slack with slack = 1e-8*||X|| (1e-5 with symeig); "
@@ -86,6 +90,46 @@ def _dt_label(spec):
     return f"dtype={spec.get('dt') or 'float64'}"
 
 
+def _runner(entry, case):
+    """tensor -> decomposition, through the function or the estimator class (case['api']).  One rank object (a
+    fresh copy of the case's list, so the case itself is never touched) and, for the class API, one estimator are
+    shared by every call made through the returned callable: that is what a caller re-using a specification does."""
+    rank = case["rank"]
+    rank = list(rank) if isinstance(rank, list) else rank
+    svd = case["svd"]
+    cls_api = case.get("api", "function") == "class"
+    if entry == "tt":
+        return TensorTrain(rank=rank, svd=svd).fit_transform if cls_api else (lambda X: tensor_train(X, rank=rank, svd=svd))
+    if entry == "ttm":
+        return TensorTrainMatrix(rank=rank, svd=svd).fit_transform if cls_api else (lambda X: tensor_train_matrix(X, rank=rank, svd=svd))
+    if entry == "tr":
+        kw = {"mode": case["mode"]} if (case["mode"] or case.get("pass_mode", True)) else {}
+        return TensorRing(rank=rank, svd=svd, **kw).fit_transform if cls_api else (lambda X: tensor_ring(X, rank=rank, svd=svd, **kw))
+    raise ValueError(entry)
+
+
+def _first_call(entry, case, run):
+    """history cases: decompose the small tensor case['A'] first with the same specification object.
+    Returns labels; the first result itself is not judged (single calls are judged by the other sub-checks)."""
+    if "A" not in case:
+        return []
+    A = _tensor(case["A"])
+    if entry == "tr":
+        req = _rank_list(case["rank"], A.ndim, "tr")
+        if _tr_plan(list(A.shape), req, case["mode"]) is None:
+            try:
+                run(_lib_in(case["A"], A))
+            except ValueError:
+                return ["history=first_rejected"]
+            raise Fail("history/first-call-not-rejected", f"inadmissible start on the first tensor {A.shape} accepted")
+    run(_lib_in(case["A"], A))
+    return ["history=two_calls"]
+
+
+def _api_label(case):
+    return f"api={case.get('api', 'function')}"
+
+
 def _sig(mat):
     if min(mat.shape) == 0:
         return np.zeros(0)
@@ -135,7 +179,10 @@ def _tucker_call(case, X):
     if case.get("modes") is not None:
         (core, factors), errs = partial_tucker(X, rank=rank, modes=list(case["modes"]), **kw)
         return core, list(factors), list(case["modes"])
-    res = tucker(X, rank=rank, **kw)
+    if case.get("api") == "class":
+        res = Tucker(rank=rank, **kw).fit_transform(X)
+    else:
+        res = tucker(X, rank=rank, **kw)
     check(len(res) == 2, "tucker/result", "result is not (core, factors)")
     core, factors = res
     return core, list(factors), list(range(X.ndim))
@@ -175,7 +222,7 @@ def _tucker_info(case, X, req, modes, sigs, tails):
             "labels": [f"order={X.ndim}", f"kind={case['X'].get('sub', case['X']['kind'])}", f"svd={case['svd']}",
                        f"n_iter={case['n_iter']}", f"truncating={int(trunc)}", f"over_rank={int(any(r > X.shape[m] for r, m in zip(req, modes)))}",
                        f"rank_form={'int' if isinstance(case['rank'], int) else 'list'}", f"size1_mode={int(1 in X.shape)}",
-                       _dt_label(case["X"])]}
+                       _dt_label(case["X"]), _api_label(case)]}
 
 
 def o_tucker_bounds(case):
@@ -280,9 +327,18 @@ def _tt_check(Y, factors, req, svd, group, what="tt"):
 def _o_tt(group):
     def oracle(case):
         X = _tensor(case["X"])
-        res = tensor_train(_lib_in(case["X"], X), rank=case["rank"], svd=case["svd"])
-        req = _rank_list(case["rank"], X.ndim, "tt")
+        run = _runner("tt", case)
+        hist = _first_call("tt", case, run)
+        res = run(_lib_in(case["X"], X))
+        req = _rank_list(case["rank"], X.ndim, "tt")      # always the ORIGINAL request
         info, _ = _tt_check(X, list(res.factors), req, case["svd"], group)
+        info["labels"] += hist + [_api_label(case)]
+        if hist:
+            expA = _tt_expected_ranks(case["A"]["a"]["s"], req)
+            expB = _tt_expected_ranks(X.shape, req)
+            clipped = any(a < b for a, b in zip(expA, expB))
+            info["labels"].append(f"first_clipped_below_second={int(clipped)}")
+            info["nontrivial"] = bool(clipped)
         info["labels"] += [f"kind={case['X'].get('sub', case['X']['kind'])}", f"rank_form={'int' if isinstance(case['rank'], int) else 'list'}",
                            _dt_label(case["X"])]
         return info
@@ -294,7 +350,9 @@ def _o_ttm(group):
         T = _tensor(case["X"])
         n = T.ndim // 2
         in_shape, out_shape = T.shape[:n], T.shape[n:]
-        res = tensor_train_matrix(_lib_in(case["X"], T), rank=case["rank"], svd=case["svd"])
+        run = _runner("ttm", case)
+        hist = _first_call("ttm", case, run)
+        res = run(_lib_in(case["X"], T))
         factors = [as_array(f, "ranks/core") for f in res.factors]
         check(len(factors) == n, "ranks/n-factors", lambda: f"{len(factors)} cores for {n} pairs")
         for i, f in enumerate(factors):
@@ -326,7 +384,14 @@ def _o_ttm(group):
             if "sufficient=1" in info["labels"] or n == 1:
                 d = _norm(Mh - want)
                 check(d <= slack, f"to_matrix/exact[{case['svd']}]", lambda: f"||to_matrix - input matrix|| = {d:.3e} > {slack:.2e} at sufficient rank {req}")
-        info["labels"] += [f"kind={case['X'].get('sub', case['X']['kind'])}", _dt_label(case["X"])]
+        info["labels"] += [f"kind={case['X'].get('sub', case['X']['kind'])}", _dt_label(case["X"]), _api_label(case)] + hist
+        if hist and n > 1:
+            sa = case["A"]["a"]["s"]
+            expA = _tt_expected_ranks([a * b for a, b in zip(sa[:n], sa[n:])], req)
+            expB = _tt_expected_ranks(Y.shape, req)
+            clipped = any(a < b for a, b in zip(expA, expB))
+            info["labels"].append(f"first_clipped_below_second={int(clipped)}")
+            info["nontrivial"] = bool(clipped)
         return info
     return oracle
 
@@ -374,17 +439,18 @@ def _o_tr(group):
                   f"uniform_rank={int(len(set(req)) == 1)}", f"rank_form={'int' if isinstance(case['rank'], int) else 'list'}",
                   _dt_label(case["X"])]
         Xlib = _lib_in(case["X"], X)
-        kw = {"mode": mode} if (mode or case.get("pass_mode", True)) else {}
+        run = _runner("tr", case)
+        labels += [_api_label(case)] + _first_call("tr", case, run)
         if plan is None:
             try:
-                tensor_ring(Xlib, rank=case["rank"], svd=svd, **kw)
+                run(Xlib)
             except ValueError:
                 return {"nontrivial": group == "reject", "labels": labels + ["admissible=0"]}
             raise Fail("reject/inadmissible-start",
                        f"rank[{mode}]*rank[{mode + 1}] = {req[mode] * req[mode + 1]} exceeds the start unfolding "
                        f"{X.shape[mode]}x{gen.prod(X.shape) // X.shape[mode]} but no ValueError was raised")
         exp, later_trunc = plan
-        res = tensor_ring(Xlib, rank=case["rank"], svd=svd, **kw)
+        res = run(Xlib)
         factors = [as_array(f, "ranks/core") for f in res.factors]
         check(len(factors) == N, "ranks/n-factors", lambda: f"{len(factors)} cores for order {N}")
         got = []
@@ -516,28 +582,30 @@ def _tucker_case(draw, svd, sufficient=False, partial=False):
             "tol": draw(st.sampled_from([None, None, 0])), "rs": draw(st.integers(0, 1000))}
     if modes is not None:
         case["modes"] = modes
+    else:
+        case["api"] = draw(st.sampled_from(["function", "class"]))
     return case
 
 
 @st.composite
-def _tt_case(draw, svd, sufficient=False):
-    shape = draw(_shape())
+def _tt_case(draw, svd, sufficient=False, forms=("list", "list", "list", "int"), min_order=2):
+    shape = draw(_shape(min_order=min_order))
     spec = draw(_data(shape, LOWRANK if sufficient else GENERIC))
     X = _tensor(spec)
     N = len(shape)
     tr = _true_ranks(X, "seq")
     full = [min(gen.prod(shape[:k]), gen.prod(shape[k:])) for k in range(1, N)]
-    form = draw(st.sampled_from(["list", "list", "list", "int"]))
+    form = draw(st.sampled_from(list(forms)))
     if form == "int":
         rank = max(draw(_rank_entry(t, f, sufficient)) for t, f in zip(tr, full)) if sufficient else draw(st.integers(1, max(full) + 1))
     else:
         rank = [1] + [draw(_rank_entry(t, f, sufficient)) for t, f in zip(tr, full)] + [1]
-    return {"X": spec, "rank": rank, "svd": svd}
+    return {"X": spec, "rank": rank, "svd": svd, "api": draw(st.sampled_from(["function", "class"]))}
 
 
 @st.composite
-def _ttm_case(draw, sufficient=False):
-    n = draw(st.sampled_from([1, 2, 2, 3, 3]))
+def _ttm_case(draw, sufficient=False, forms=("list", "list", "int"), pairs=(1, 2, 2, 3, 3)):
+    n = draw(st.sampled_from(list(pairs)))
     sides = [1, 2, 3, 2, 3]
     in_shape = [draw(st.sampled_from(sides)) for _ in range(n)]
     out_shape = [draw(st.sampled_from(sides)) for _ in range(n)]
@@ -557,12 +625,13 @@ def _ttm_case(draw, sufficient=False):
     else:
         tr = _true_ranks(Y, "seq")
         full = [min(gen.prod(merged[:k]), gen.prod(merged[k:])) for k in range(1, n)]
-        form = draw(st.sampled_from(["list", "list", "int"]))
+        form = draw(st.sampled_from(list(forms)))
         if form == "int":
             rank = max(draw(_rank_entry(t, f, sufficient)) for t, f in zip(tr, full)) if sufficient else draw(st.integers(1, max(full) + 1))
         else:
             rank = [1] + [draw(_rank_entry(t, f, sufficient)) for t, f in zip(tr, full)] + [1]
-    return {"X": spec, "rank": rank, "svd": draw(st.sampled_from(["truncated_svd", "truncated_svd", "symeig_svd"]))}
+    return {"X": spec, "rank": rank, "svd": draw(st.sampled_from(["truncated_svd", "truncated_svd", "symeig_svd"])),
+            "api": draw(st.sampled_from(["function", "class"]))}
 
 
 _tensor_base = _tensor
@@ -587,7 +656,7 @@ def _tr_case(draw, kind, rotation):
     N = len(shape)
     if rotation == "mode2plus":
         mode = draw(st.sampled_from(list(range(2, N))))
-    elif kind == "nontrunc":
+    elif kind == "nontrunc" and rotation == "safe":
         mode = draw(st.sampled_from([0, 1]))      # constant ranks (the only safe form at mode >= 2) always truncate later
     else:
         mode = draw(st.sampled_from(list(range(N))))
@@ -613,9 +682,27 @@ def _tr_case(draw, kind, rotation):
             rk[other] += 1
         rank = rk + [rk[0]]
     case = {"X": spec, "rank": rank, "mode": mode,
-            "svd": draw(st.sampled_from(["truncated_svd", "truncated_svd", "symeig_svd"]))}
+            "svd": draw(st.sampled_from(["truncated_svd", "truncated_svd", "symeig_svd"])),
+            "api": draw(st.sampled_from(["function", "class"]))}
     if mode == 0:
         case["pass_mode"] = draw(st.booleans())
+    return case
+
+
+@st.composite
+def _with_first(draw, base, entry):
+    """two-call history: a small tensor A of the same order (sides 1-2) is decomposed first with the SAME rank list
+    object (and estimator), then the case's tensor; the second result is judged against the original request."""
+    case = draw(base)
+    X = case["X"]
+    if X["kind"] == "ttm":
+        shapeB = list(X["in"]) + list(X["out"])
+    elif X["kind"] == "enc":
+        shapeB = X["a"]["s"]
+    else:
+        shapeB = X["shape"]
+    shapeA = [draw(st.sampled_from([1, 2, 2])) for _ in shapeB]
+    case["A"] = {"kind": "enc", "sub": "normal", "a": draw(gen.arr(shapeA, kinds=("normal", "seedint")))}
     return case
 
 
@@ -645,5 +732,16 @@ def subchecks(tier):
         SubCheck("tr_mode2plus/ranks", _tr_case("admissible", "mode2plus"), _o_tr("ranks"), quick=400, thorough=3000),
         SubCheck("tr_mode2plus/equality", _tr_case("nontrunc", "mode2plus"), _o_tr("equality"), quick=400, thorough=3000),
         SubCheck("tr_mode2plus/reject", _tr_case("reject", "mode2plus"), _o_tr("reject"), quick=300, thorough=2000),
+    ]
+    both = st.sampled_from(["truncated_svd", "truncated_svd", "symeig_svd"])
+    lst = ("list",)
+    subs += [
+        # re-use of one rank list / estimator over two tensors (small first): second call judged against the original request
+        SubCheck("history/tt/ranks", _with_first(both.flatmap(lambda v: _tt_case(v, forms=lst, min_order=3)), "tt"), _o_tt("ranks"), quick=300, thorough=2000),
+        SubCheck("history/tt/exact", _with_first(both.flatmap(lambda v: _tt_case(v, sufficient=True, forms=lst, min_order=3)), "tt"), _o_tt("exact"), quick=300, thorough=2000),
+        SubCheck("history/ttm/ranks", _with_first(_ttm_case(forms=lst, pairs=(2, 3)), "ttm"), _o_ttm("ranks"), quick=300, thorough=2000),
+        SubCheck("history/ttm/to_matrix", _with_first(_ttm_case(sufficient=True, forms=lst, pairs=(2, 3)), "ttm"), _o_ttm("to_matrix"), quick=300, thorough=2000),
+        SubCheck("history/tr/ranks", _with_first(_tr_case("admissible", "any"), "tr"), _o_tr("ranks"), quick=300, thorough=2000),
+        SubCheck("history/tr/equality", _with_first(_tr_case("nontrunc", "any"), "tr"), _o_tr("equality"), quick=300, thorough=2000),
     ]
     return subs
